@@ -14,7 +14,7 @@ def _gen(ctx, seed_stream, script=None, perm='reverse'):
         from symtt.stubs_rng import StubGenerator
         g = StubGenerator(seed_stream)
     else:
-        g = _ConcreteScripted()
+        g = _ConcreteScripted(ctx, seed_stream)
     g.script = list(script) if script is not None else None
     g.perm = perm
     return g
@@ -22,11 +22,27 @@ def _gen(ctx, seed_stream, script=None, perm='reverse'):
 
 class _ConcreteScripted:
     """Concrete twin of the stub: returns the scripted indices, records p."""
-    def __init__(self):
+    def __init__(self, ctx=None, stream='free'):
         self.log = []
         self.script = None
         self.perm = 'reverse'
         self._rng = np.random.default_rng(12345)
+        self.ctx = ctx
+        self.stream = stream
+        self.calls = 0
+
+    def _forked_outcomes(self, n, k, replace):
+        """The outcomes the symbolic run forked on are inputs named like the
+        stub's draws: replay exactly those (fall back to a real draw if invalid)."""
+        out = []
+        for _ in range(k):
+            self.calls += 1
+            name = f'rng_{self.stream}_{self.calls}_idx'
+            v = self.ctx.integer(name) if self.ctx is not None and name in self.ctx.values else None
+            if v is None or not (0 <= v < n) or (not replace and v in out):
+                return None
+            out.append(int(v))
+        return out
 
     def choice(self, a, size=None, replace=True, p=None):
         n = int(a) if isinstance(a, (int, np.integer)) else len(a)
@@ -39,7 +55,9 @@ class _ConcreteScripted:
         if self.script:
             out = [self.script.pop(0) for _ in range(k)]
         else:
-            out = list(self._rng.choice(n, k, replace=replace, p=p))
+            out = self._forked_outcomes(n, k, replace)
+            if out is None:
+                out = list(self._rng.choice(n, k, replace=replace, p=p))
         self.log.append(('choice', n, size, p, [int(x) for x in out]))
         vals = [pool[i] for i in out] if pool is not None else out
         if size is None:
